@@ -443,3 +443,74 @@ def run_kernels_nd(ctx: Ctx) -> None:
                     return False, f"cubic_bspline1d([{s}]) differs from cubic_bspline1d({s})"
         return True, ""
     _guard(ctx, "T3.kernels", "D=1", fG, "generic front end, one stride", th1)
+
+
+def run_weights_dtype(ctx: Ctx) -> None:
+    """The weight tables are computed in the dtype they are requested in (dtype flow, no numerics)."""
+    prog = ctx.prog
+    fW = prog.func("deepali.core.bspline", "cubic_bspline_interpolation_weights")
+    fE = prog.func("deepali.core.bspline", "evaluate_cubic_bspline")
+    ctx.rule("T3.dtype", "cubic_bspline_interpolation_weights(stride, derivative, dtype=float64) and evaluate_cubic_bspline of float64 "
+                         "coefficients: the result is float64 and no dimensioned tensor computed in a narrower float type enters it (events of the "
+                         "dtype-tracking interpreter: a float32 offset table behind a float64 weight table loses the analytic values beyond 1e-7)")
+    for s_ in (3, (2, 5)):
+        for d in (0, 1, 2):
+            def th(s_=s_, d=d):
+                reset_relations()
+                fresh_facts()
+                it = make_interp(ctx)
+                del symt.PRECISION_EVENTS[:]
+                w = it.call(fW, s_, derivative=d, dtype=symt.DOUBLE)
+                ws = w if isinstance(w, (tuple, list)) else [w]
+                for k in ws:
+                    if k.dtype.name != "float64":
+                        return False, f"weights requested as float64 have dtype {k.dtype.name}"
+                if symt.PRECISION_EVENTS:
+                    return False, (f"stride={s_} derivative={d}: part of the float64 weight table is computed in {symt.PRECISION_EVENTS[0][0]} "
+                                   f"({len(symt.PRECISION_EVENTS)} events)")
+                D = 1 if isinstance(s_, int) else len(s_)
+                c0 = STensor.symbols("c", [1, 1] + [5] * D)
+                c = STensor(list(c0.flat()), list(range(c0.numel())), list(c0.shape), symt.DOUBLE)
+                del symt.PRECISION_EVENTS[:]
+                out = it.call(fE, c, stride=s_, derivative=d)
+                if out.dtype.name != "float64" or symt.PRECISION_EVENTS:
+                    why = symt.PRECISION_EVENTS[0][0] if symt.PRECISION_EVENTS else f"result dtype {out.dtype.name}"
+                    return False, f"evaluate_cubic_bspline of float64 coefficients (stride={s_}, derivative={d}): {why}"
+                return True, ""
+            _guard(ctx, "T3.dtype", f"s={s_}:d={d}", fW, f"float64 weights stride={s_} derivative={d}", th)
+
+
+def run_ffd_shape(ctx: Ctx) -> None:
+    """Free-form deformation models with per-axis strides: the control grid is sized with each axis' own stride and covers the image grid."""
+    prog = ctx.prog
+    S = "deepali.spatial.bspline"
+    Grid = prog.cls("deepali.core.grid", "Grid")
+    fD = prog.func(S, "BSplineTransform.data_shape")
+    ctx.fn(fD)
+    ctx.rule("T3.ffd-shape", "FreeFormDeformation / StationaryVelocityFreeFormDeformation on non-square grids with an int stride and with per-axis "
+                             "strides (sx, sy[, sz]) that differ: the parameter tensor has, along the tensor axis of spatial dimension d, "
+                             "ceil(m_d / s_d) + 3 control points (one before, enough after), and the evaluated spline has exactly the shape of "
+                             "the image grid")
+    import math
+    for cname, kw in (("FreeFormDeformation", {}), ("StationaryVelocityFreeFormDeformation", {"steps": 1})):
+        for size, stride in (((9, 7), (2, 4)), ((8, 5), 3), ((6, 7, 5), (2, 3, 1)), ((9, 7), (4, 2))):
+            def th(cname=cname, kw=kw, size=size, stride=stride):
+                reset_relations()
+                fresh_facts()
+                it = make_interp(ctx)
+                D = len(size)
+                g = it.new(Grid, size=size)
+                t = it.new(prog.cls(S, cname), g, params=False, stride=stride, **kw)
+                st = (stride,) * D if isinstance(stride, int) else tuple(stride)
+                want = [D] + [math.ceil(Fraction(size[d], st[d])) + 3 for d in reversed(range(D))]
+                got = list(it.getattr(t, "data_shape"))
+                if got != want:
+                    return False, f"{cname}(grid size {size}, stride={stride}).data_shape = {got}, expected {want} (tensor order, per-axis strides)"
+                p = it.method(t, "data")
+                if list(p.shape[1:]) != want:
+                    return False, f"parameter tensor shape {list(p.shape)}"
+                u = it.method(t, "evaluate_spline")
+                if list(u.shape[2:]) != list(reversed(size)):
+                    return False, f"evaluated spline has spatial shape {list(u.shape[2:])}, the image grid {list(reversed(size))}"
+                return True, ""
+            _guard(ctx, "T3.ffd-shape", f"{cname}:{size}:{stride}", fD, f"class={cname} size={size} stride={stride}", th)
